@@ -1180,6 +1180,8 @@ class PSBTIn:
                 # a p2sh output whose RedeemScript is not a witness program is a
                 # legacy input and has to come with its previous transaction
                 raise ValueError("Witness UTXO provided for non-witness input")
+            if self.redeem_script and not script_pubkey.is_p2sh():
+                raise ValueError("RedeemScript defined for non-p2sh ScriptPubKey")
             if self.witness_script:  # p2wsh or p2sh-p2wsh
                 if not script_pubkey.is_p2wsh() and not (
                     self.redeem_script and self.redeem_script.is_p2wsh()
